@@ -436,6 +436,15 @@ impl Gen {
                 ops.insert(at, Op::Put(*id, d));
             }
         }
+        // sometimes a datum of the right graph was already read there (the legality check drops the
+        // case if that read collects part of the tree)
+        if self.rng.chance(1, 3) {
+            let holders: Vec<usize> = ops.iter().filter_map(|o| if let Op::Put(v, _) = o { Some(*v) } else { None }).collect();
+            if !holders.is_empty() {
+                let v = *self.rng.pick(&holders);
+                ops.push(Op::Data(v));
+            }
+        }
         (ops, ids[0])
     }
 
